@@ -7,8 +7,8 @@ props = [json.loads(l) for l in open(os.path.join(V, 'properties.jsonl'))]
 T_ENGINE = 'coq+cxx2coq'
 CLAIMS = {
  'C04': dict(engine=T_ENGINE,
-   text='Coq theorems for all n x p block layouts (route shapes under NONE/NR/NLNR, one NLNR rank pair per ordered node pair, NLNR pairs subset of NR pairs, totality of next_hop) about a next-hop function that is regenerated from comm_router.hpp/layout.hpp by a clang-AST translator on every run and re-proved equal to the hand-written spec; the generated code is additionally evaluated inside Coq against the compiled router on an exhaustive small domain.',
-   note='Trusted: Coq kernel; tools/cxx2coq.py + coq/Gen/CArith.v (C integer semantics); clang 14 AST; block placement of ranks (the layout tables are modelled by Layout.block_layout, the accessors are generated). No axioms.',
+   text='Coq theorems for all n x p block layouts (route shapes under NONE/NR/NLNR, one NLNR rank pair per ordered node pair, NLNR pairs subset of NR pairs, totality of next_hop) about a next-hop function that is regenerated from comm_router.hpp/layout.hpp by a clang-AST translator on every run and re-proved equal to the hand-written spec; the generated code is additionally evaluated inside Coq against the compiled router on an exhaustive small domain. Added (RouterPlaced.v): the same for ANY uniform placement of the ranks on the nodes - the regenerated next_hop on the layout tables of a numbering rk/nd/lc with placement_ok equals next_hop_placed, the routes are the block routes renumbered (route_transport), every route reaches its destination in at most three hops through ranks of the communicator and the NLNR off-node hop between two nodes is made by one fixed rank pair; block, round-robin and four irregular placements are run under simmpi (-cyclic / -placement) and the real layout tables are compared with the placement.',
+   note='Trusted: Coq kernel; tools/cxx2coq.py + coq/Gen/CArith.v (C integer semantics); clang 14 AST; that ygm::detail::layout builds the tables of a placement_ok numbering from the MPI communicator splits is not modelled (compared per run by the layout oracle; defect D19 was found there); the accessors are generated. No axioms.',
    technique='Rocq proof over a translator-generated model (clang AST -> Gallina), re-proved every run', ref='DESIGN.md §2, §5 C04'),
  'C10': dict(engine=T_ENGINE,
    text='Coq theorems for every array length and communicator size (blocks contiguous, disjoint, covering, balanced; owner in range, unique, total) and for the hash partitioner (owner = hash mod n in range), about array::resize/owner and hash_partitioner::operator() regenerated from the headers each run; the real containers run on every rank under a simulated MPI and their values are compared with the generated code inside Coq.',
